@@ -47,6 +47,11 @@ type Creds struct {
 	Anon bool   `json:"anon,omitempty"`
 	// SrcIP is the loopback address the client connects from ("" = 127.0.0.1).
 	SrcIP string `json:"srcIP,omitempty"`
+	// Headers are added to every HTTP request of the client (HLS, WHIP/WHEP): forged proxy headers.
+	Headers map[string]string `json:"headers,omitempty"`
+	// ClaimedIPs are the addresses the forged headers claim: a server that believes them shows the client under
+	// <claimed ip>:<port of the connection>.
+	ClaimedIPs []string `json:"claimedIPs,omitempty"`
 }
 
 func (cr Creds) srcIP() net.IP {
@@ -64,13 +69,17 @@ type Client struct {
 	Steps []string
 
 	src    net.IP
+	claim  []string
+	hdrs   map[string]string
 	mu     sync.Mutex
 	locals map[string]bool
 	closer []func()
 	closed bool
 }
 
-func newClient(cr Creds) *Client { return &Client{locals: map[string]bool{}, src: cr.srcIP()} }
+func newClient(cr Creds) *Client {
+	return &Client{locals: map[string]bool{}, src: cr.srcIP(), claim: cr.ClaimedIPs, hdrs: cr.Headers}
+}
 
 func (c *Client) addLocal(a string) {
 	c.mu.Lock()
@@ -114,8 +123,29 @@ func (c *Client) dialTCP(ctx context.Context, network, address string) (net.Conn
 	nc, err := (&net.Dialer{Timeout: 20 * time.Second, LocalAddr: &net.TCPAddr{IP: c.src}}).DialContext(ctx, network, address)
 	if err == nil {
 		c.addLocal(nc.LocalAddr().String())
+		if _, port, e := net.SplitHostPort(nc.LocalAddr().String()); e == nil {
+			for _, ip := range c.claim {
+				c.addLocal(net.JoinHostPort(ip, port))
+			}
+		}
 	}
 	return nc, err
+}
+
+// headerAdder adds the client's forged headers to every request.
+type headerAdder struct {
+	rt   http.RoundTripper
+	hdrs map[string]string
+}
+
+func (h *headerAdder) RoundTrip(req *http.Request) (*http.Response, error) {
+	if len(h.hdrs) > 0 {
+		req = req.Clone(req.Context())
+		for k, v := range h.hdrs {
+			req.Header[k] = []string{v}
+		}
+	}
+	return h.rt.RoundTrip(req)
 }
 
 func (c *Client) fail(step string, err error, denied bool) *Client {
@@ -529,7 +559,7 @@ func (r *udpRelay) close() {
 func (c *Client) httpClient(timeout time.Duration) *http.Client {
 	tr := &http.Transport{DialContext: c.dialTCP, MaxIdleConnsPerHost: 1, IdleConnTimeout: 10 * time.Second}
 	c.onClose(tr.CloseIdleConnections)
-	return &http.Client{Transport: tr, Timeout: timeout}
+	return &http.Client{Transport: &headerAdder{rt: tr, hdrs: c.hdrs}, Timeout: timeout}
 }
 
 func setHTTPAuth(req *http.Request, cr Creds, placement string) {
